@@ -8,5 +8,7 @@ def run(ctx):
     cache_files.run_file_histories(ctx, camp.found)     # real file stores, real modified times
     import depviews
     depviews.run(ctx, camp.add)
+    import tz_histories
+    tz_histories.run(ctx, camp.add, "C03")       # the same decisions in processes running in other time zones
     camp.eval_model()
     camp.file({"C03"})
